@@ -601,15 +601,20 @@ def _floor(v):
     """floor of a Sym as a Python int, forking over the feasible integers.
 
     Bounded values (window sizes, counts) are enumerated completely.  For a value the path condition does not
-    bound (e.g. an arbitrary real stored into an integer array) only the cases floor(v) in {0, 1, -1, 2, -2}
-    are explored and the remaining ones are cut with the run marked as not exhaustive."""
+    bound (e.g. an arbitrary real stored into an integer array) only a spread of cases is explored - floor(v) in
+    {0, +-1, +-2, 3, 5, 8, 13, 21, 34, 55, 89, -3, -8} at the first such site of a path, {0, +-1} at later ones -
+    and the remaining ones are cut with the run marked as not exhaustive."""
     if v.is_const():
         return math.floor(v.const())
     ctx = CUR
     cap = ctx.int_cap
     unbounded = ctx.check(Or(v > cap, v < -cap)) != "unsat"
     if unbounded:
-        for k in (0, 1, -1, 2, -2):
+        # the first such site on a path gets a wide spread of cases, later ones a narrow one (the product of cases
+        # over several sites would explode)
+        ctx.unbounded_int_sites += 1
+        cases = (0, 1, -1, 2, -2, 3, 5, 8, 13, 21, 34, 55, 89, -3, -8) if ctx.unbounded_int_sites == 1 else (0, 1, -1)
+        for k in cases:
             if bool(And(v >= k, v < k + 1)):
                 return k
         ctx.ex.int_cases_cut += 1
@@ -675,6 +680,7 @@ class Ctx:
         self.z3vars = []
         self.input_vars = {}      # name -> Sym (harness inputs, for models / replay)
         self.int_inputs = set()
+        self.unbounded_int_sites = 0
         self.purify = {}
         self.known = {}
         self.pc = []              # list of (SymBool, tag)
